@@ -646,6 +646,64 @@ EXTERN int _decomp_s(wchar_t *restrict dest, rsize_t dmax, const uint32_t cp,
 
 #endif /* SAFECLIB_DISABLE_WCHAR */
 
+/* Does the printf/scanf format contain a %n conversion?  Follows the
+   directive grammar (%% is literal; flags, width, precision and length
+   modifiers may stand between % and the conversion; with scan != 0 a
+   scanset %[...] is skipped), instead of searching for the substring "%n". */
+#define SAFEC_FMT_HAS_N(NAME, CHAR_T, LIT)                                     \
+    static inline int NAME(const CHAR_T *fmt, int scan) {                      \
+        /* all readings of the format are followed at once, one pass: the set \
+           of parser states a reading can be in after each character */       \
+        enum { F_TEXT = 1, F_DIR0 = 2, F_DIRM = 4, F_SET0 = 8, F_SET1 = 16,   \
+               F_SETN = 32 };                                                  \
+        unsigned st = F_TEXT;                                                  \
+        for (; *fmt; fmt++) {                                                  \
+            const CHAR_T c = *fmt;                                             \
+            unsigned nx = 0;                                                   \
+            if (st & F_TEXT)                                                   \
+                nx |= (c == LIT('%')) ? F_DIR0 : F_TEXT;                       \
+            if (st & (F_DIR0 | F_DIRM)) {                                      \
+                if (c == LIT('%')) {                                           \
+                    /* "%%" is the escape. a '%' after modifiers either        \
+                       completes this directive or, if libc gives up on an    \
+                       invalid one, starts the next */                        \
+                    nx |= F_TEXT;                                              \
+                    if (st & F_DIRM)                                           \
+                        nx |= F_DIR0;                                          \
+                } else if (c == LIT('-') || c == LIT('+') || c == LIT(' ') || \
+                           c == LIT('#') || c == LIT('\'') || c == LIT('*') || \
+                           c == LIT('.') || c == LIT('$') || c == LIT('I') || \
+                           (c >= LIT('0') && c <= LIT('9')) ||                 \
+                           c == LIT('h') || c == LIT('l') || c == LIT('L') || \
+                           c == LIT('j') || c == LIT('z') || c == LIT('t') || \
+                           c == LIT('q') || c == LIT('Z') ||                   \
+                           (scan && c == LIT('m'))) {                          \
+                    nx |= F_DIRM;                                              \
+                } else if (c == LIT('n')) {                                    \
+                    return 1;                                                  \
+                } else if (scan && c == LIT('[')) {                            \
+                    nx |= F_SET0; /* scanset: up to the closing ] */           \
+                } else {                                                       \
+                    nx |= F_TEXT; /* any other conversion character */         \
+                }                                                              \
+            }                                                                  \
+            if (st & F_SET0)                                                   \
+                nx |= (c == LIT('^')) ? F_SET1 : F_SETN; /* a first ] is literal */ \
+            if (st & F_SET1)                                                   \
+                nx |= F_SETN; /* so it is after ^ */                           \
+            if (st & F_SETN)                                                   \
+                nx |= (c == LIT(']')) ? F_TEXT : F_SETN;                       \
+            st = nx;                                                           \
+        }                                                                      \
+        return 0;                                                              \
+    }
+#define SAFEC_NARROW_LIT(c) c
+#define SAFEC_WIDE_LIT(c) L##c
+SAFEC_FMT_HAS_N(safec_fmt_has_n, char, SAFEC_NARROW_LIT)
+#ifndef SAFECLIB_DISABLE_WCHAR
+SAFEC_FMT_HAS_N(safec_wfmt_has_n, wchar_t, SAFEC_WIDE_LIT)
+#endif
+
 // internal helpers for the *printf_s functions:
 
 // output function type
